@@ -271,8 +271,9 @@ def build_net(V, cfg):
         else:
             cond = TimeOfDayCondition(wn, Comparison[spec['rel']], 0, repeat=True)
         cond._threshold = thr
-        then = [ControlAction(p2, 'status', LinkStatus(spec['then']))]
-        els = [ControlAction(p2, 'status', LinkStatus(spec['else']))] if spec.get('else') is not None else None
+        tgt = wn.get_link(spec.get('target', 'P2'))
+        then = [ControlAction(tgt, 'status', LinkStatus(spec['then']))]
+        els = [ControlAction(tgt, 'status', LinkStatus(spec['else']))] if spec.get('else') is not None else None
         wn.add_control('r%d' % k, Rule(cond, then, els, priority=ControlPriority(spec.get('priority', 3))))
         rules.append(dict(spec, thr=thr))
     if rules:
@@ -406,6 +407,7 @@ SYS_QUICK = [
 SYS_QUICK += [
     # rule grid finer than the hydraulic grid with simple controls only: a redundant control (re-opens an open link) and a closing one inside one hydraulic step
     dict(name='sim2-rulegrid', H=3600, R=1200, dur=3600, report='ALL', controls=[dict(kind='sim', value=1), dict(kind='sim', value=0)]),
+    dict(name='control+rule-finer-grid', H=3600, R=900, dur=3600, report='ALL', controls=[dict(kind='sim', value=0)], rules=[dict(kind='sim', rel='ge', then=0, target='P3')]),
     dict(name='rule-sim-ge', H=3600, R=1800, dur=2 * 3600, report='ALL', controls=[], rules=[dict(kind='sim', rel='ge', then=0)]),
     dict(name='rule-sim-lt-else', H=3600, R=900, dur=3600, report='ALL', controls=[], rules=[dict(kind='sim', rel='lt', then=0, **{'else': 1})]),
     dict(name='rule-clock-ge-else', H=21600, R=10800, dur=DAY, report='ALL', clock=True, controls=[], rules=[dict(kind='clock', rel='ge', then=0, hi=DAY - 1, **{'else': 1})]),
@@ -445,9 +447,17 @@ def check_system(rep, cfg):
                 failed.add('raised')
                 break
             V, ctl, sc, init, res = path.value
+            wn_init_p3 = LinkStatus.Open
             times = res.time
             statuses = ctrlplane.series(res, 'link', 'status', 'P2')
-            if isinstance(ctl, tuple):
+            if isinstance(ctl, tuple) and ctl[0]:
+                # simple controls on P2 and rules on P3 in one run: each target follows its own reference timeline
+                cons = cons + unambiguous(cfg, ctl[0], sc)
+                keep = ('times-increase', 'status-timeline', 'change-instants-recorded')
+                the_claims = [('P2.' + n_, c_) for n_, c_ in timeline_claims(cfg, ctl[0], sc, times, statuses, init) if n_ in keep]
+                st3 = ctrlplane.series(res, 'link', 'status', 'P3')
+                the_claims += [('P3.' + n_, c_) for n_, c_ in rule_claims(cfg, ctl[1], sc, times, st3, wn_init_p3) if n_ in keep]
+            elif isinstance(ctl, tuple):
                 the_claims = rule_claims(cfg, ctl[1], sc, times, statuses, init)
             else:
                 cons = cons + unambiguous(cfg, ctl, sc)
@@ -497,6 +507,38 @@ def replay_system(i):
         return [int(c['thr']) - int(sc) + k * DAY for k in range(0, ndays + 1) if int(c['thr']) - int(sc) + k * DAY >= 0]
     if times != sorted(set(times)) or times[0] != 0:
         return 'recorded times not strictly increasing from 0: %r' % times
+    if isinstance(ctl, tuple) and ctl[0]:
+        # controls on P2, rules on P3: each target against its own reference (status only; extra steps of the other kind are expected)
+        st3 = res.link['status']['P3']
+        R = cfg['R']
+        cur, states = 1, [1]
+        for k in range(1, cfg['dur'] // R + 1):
+            for r in sorted(ctl[1], key=lambda r_: r_.get('priority', 3)):
+                x = k * R if r['kind'] == 'sim' else (k * R + int(sc)) % DAY
+                th = int(r['thr'])
+                if {'gt': x > th, 'ge': x >= th, 'lt': x < th, 'le': x <= th}[r['rel']]:
+                    cur = int(r['then'])
+                elif r.get('else') is not None:
+                    cur = int(r['else'])
+            states.append(cur)
+        for k in range(1, len(states)):
+            if states[k] != states[k - 1] and k * R not in times:
+                return 'rules change P3 to %d at the rule step %d but no hydraulic step is taken there; steps %r' % (states[k], k * R, times)
+        for t in times:
+            want = states[min(t // R, len(states) - 1)]
+            if int(st3[t]) != want:
+                return 'at t=%d P3 status is %d; the rule evaluated at the positive multiples of the rule timestep gives %d; steps %r; rule thresholds %r, control thresholds %r' % (
+                    t, int(st3[t]), want, times, [int(r['thr']) for r in ctl[1]], [int(c['thr']) for c in ctl[0]])
+        ctl = ctl[0]
+        for t in times:
+            best = (-1, -1, init)
+            for c in ctl:
+                l = max([x for x in instants(c) if x <= t], default=-1)
+                if l >= 0 and (l, c['priority']) > best[:2]:
+                    best = (l, c['priority'], int(c['value']))
+            if int(st[t]) != best[2]:
+                return 'at t=%d P2 status is %d, the controls command %d; steps %r' % (t, int(st[t]), best[2], times)
+        return None
     if isinstance(ctl, tuple):
         return _replay_rules(cfg, ctl[1], int(sc), init, times, st)
     # ambiguous inputs (equal priority, conflicting actions, same instant) are outside the claim
